@@ -201,11 +201,8 @@ private def rO : SchemaD :=
        { kind := .object, name := "Dog", interfaces := ["Pet"],
          fields := [{ name := "name", type := .named "String" }, { name := "bark", type := .named "Int" }] }] }
 
-/-- new schema: an optional argument added, the required one relaxed, an output type made non-null, a type and a
-    mutation root added -/
-private def rN : SchemaD :=
-  { query := some "Query", mutation := some "Mutation", directives := [skipD],
-    types := builtins ++
+private def rNTypes : List TypeD :=
+  builtins ++
       [{ kind := .object, name := "Query",
          fields := [{ name := "pet", type := .named "Pet",
                       args := [{ name := "id", type := .named "Int" }, { name := "strict", type := .named "Boolean" }] },
@@ -213,7 +210,13 @@ private def rN : SchemaD :=
        { kind := .interface, name := "Pet", fields := [{ name := "name", type := .named "String" }] },
        { kind := .object, name := "Dog", interfaces := ["Pet"],
          fields := [{ name := "name", type := .named "String" }, { name := "bark", type := .named "Int" }] },
-       { kind := .object, name := "Mutation", fields := [{ name := "m", type := .named "Int" }] }] }
+       { kind := .object, name := "Mutation", fields := [{ name := "m", type := .named "Int" }] }]
+
+/-- new schema: an optional argument added, the required one relaxed, an output type made non-null, a type added -/
+private def rN : SchemaD := { query := some "Query", directives := [skipD], types := rNTypes }
+
+/-- the same, with the added type made the mutation root -/
+private def rNM : SchemaD := { query := some "Query", mutation := some "Mutation", directives := [skipD], types := rNTypes }
 
 /-- `query ($i: Int!) { n pet(id: $i) { name @skip(if: true) ... on Dog { bark } ...F } }  fragment F on Pet { __typename }` -/
 private def rDoc : Doc :=
@@ -233,10 +236,12 @@ private theorem rO_wf : OldWf rO := by
   decide
 
 private theorem rN_wf : NewWf rN := by
-  constructor <;> simp [Uniq, rN, builtins, skipD]
+  constructor <;> simp [Uniq, rN, rNTypes, builtins, skipD]
+private theorem rNM_wf : NewWf rNM := by
+  constructor <;> simp [Uniq, rNM, rNTypes, builtins, skipD]
 
 
-example : diffSchema rO rN 2 = [] ∧ (diffSchema rO rN 0).length = 5 := by decide
+example : diffSchema rO rN 2 = [] ∧ (diffSchema rO rN 0).length = 4 := by decide
 example : rulesB rO rDoc = true := by decide
 
 /-- the hypotheses of `operations_stay_valid_rules` are met by a non-trivial instance, and the conclusion follows -/
@@ -250,8 +255,8 @@ example : SchemaRules rN rDoc :=
 theorem unrooted_operation_refutes :
     ∃ (o n : SchemaD) (d : Doc), diffSchema o n 2 = [] ∧ OldWf o ∧ NewWf n ∧ SchemaRules o d
       ∧ ¬ fieldsOnCorrectType n d := by
-  exact ⟨rO, rN, rMut, by decide, rO_wf, rN_wf, rules_of_rulesB rO rMut (by decide),
-    fun hF => absurd (fieldsB_of rN rMut hF) (by decide)⟩
+  exact ⟨rO, rNM, rMut, by decide, rO_wf, rNM_wf, rules_of_rulesB rO rMut (by decide),
+    fun hF => absurd (fieldsB_of rNM rMut hF) (by decide)⟩
 
 /-- the same pair of schemas: the operation has no root type on the old schema -/
 example : rootedB rO rMut = false := by decide
